@@ -37,12 +37,23 @@ impl Hist {
     }
     pub fn build(&self) -> Lapper<u64, u64> {
         let mut l = Lapper::new(self.init.iter().map(|(s, e, v)| Iv { start: *s, stop: *e, val: *v }).collect());
+        // "however it was built": a copy (Clone) or a serde round trip (bincode) of the set answers exactly like the set
+        // itself; the places where one is taken are a function of the history (so that a case replays)
+        fn identity(l: Lapper<u64, u64>, k: usize) -> Lapper<u64, u64> {
+            match k % 7 {
+                3 => l.clone(),
+                5 => bincode::deserialize(&bincode::serialize(&l).expect("serialize Lapper")).expect("deserialize Lapper"),
+                _ => l,
+            }
+        }
+        l = identity(l, self.init.len() * 5 + 3 * self.ops.len());
         for (i, o) in self.ops.iter().enumerate() {
             match o {
                 Op::Insert(s, e, v) => l.insert(Iv { start: *s, stop: *e, val: *v }),
                 Op::Merge => l.merge_overlaps(),
                 Op::SetCov => { l.set_cov(); }
             }
+            l = identity(l, i * 3 + self.init.len());
             // read-only calls in the middle of a history (results discarded): they take &self and must not
             // influence any later answer
             if (i + self.init.len()) % 2 == 0 {
